@@ -159,7 +159,14 @@ def finish(ctx: Ctx, info: dict, level: str = "proof") -> int:
     }
     (VERIF / "evidence").mkdir(exist_ok=True)
     (VERIF / "evidence" / f"{pid}.json").write_text(json.dumps(ev, indent=1, default=str))
+    shown = 0
     for l in out_lines:
+        if l.startswith("VIOLATION"):
+            shown += 1
+            if shown == 13:
+                print(f"NOTE property={pid} {sum(1 for x in out_lines if x.startswith('VIOLATION')) - 12} further VIOLATION lines suppressed (all replays are under /verif/replays)")
+            if shown > 12:
+                continue
         print(l)
     print(f"[{pid}] tier={ctx.tier} seed={ctx.seed} obligations={cov['obligations']} discharged={cov['discharged']} "
           f"evaluations={cov['evaluations']} violations={ev['violations']} wall={ev['wall_s']}s")
